@@ -68,6 +68,9 @@ var tokens = map[string]string{
 	"@esc":    "a(b)c\\d)(",
 	"@spaces": " lead trail ",
 	"@lines":  "line one\nline two",
+	"@astral": "Doe \U0001F600 \U0001D4B3 \U00020BB7", // emoji, mathematical script X, CJK extension B: surrogate pairs in UTF-16
+	"@cjk":    "\u65E5\u672C\u8A9E \u30C6\u30AD\u30B9\u30C8",
+	"@cyr":    "\u041F\u0440\u0438\u0432\u0435\u0442, \u043C\u0438\u0440",
 }
 
 func expand(s string) string {
@@ -75,6 +78,14 @@ func expand(s string) string {
 		return v
 	}
 	return s
+}
+
+func expandAll(ss []string) []string {
+	out := make([]string, len(ss))
+	for i, s := range ss {
+		out[i] = expand(s)
+	}
+	return out
 }
 
 func contract(s string) string {
@@ -126,22 +137,22 @@ func createJSON(defs []fieldDef, st []fieldState) []byte {
 			base["buttons"] = map[string]any{"values": f.Opts, "label": map[string]any{"value": "x", "width": 60, "gap": 10, "pos": "right"}}
 			content["radiobuttongroup"] = append(content["radiobuttongroup"], base)
 		case "combo":
-			base["options"] = f.Opts
+			base["options"] = expandAll(f.Opts)
 			base["edit"] = false
 			if len(s.Val) > 0 && s.Val[0] != "" {
-				base["value"] = s.Val[0]
+				base["value"] = expand(s.Val[0])
 			}
 			content["combobox"] = append(content["combobox"], base)
 		case "list":
-			base["options"] = f.Opts
+			base["options"] = expandAll(f.Opts)
 			base["multi"] = f.Multi
 			base["height"] = 42.0
 			if f.Multi {
 				if len(s.Val) > 0 {
-					base["values"] = s.Val
+					base["values"] = expandAll(s.Val)
 				}
 			} else if len(s.Val) > 0 {
-				base["value"] = s.Val[0]
+				base["value"] = expand(s.Val[0])
 			}
 			content["listbox"] = append(content["listbox"], base)
 		}
@@ -472,7 +483,24 @@ func genericState(path string) ([]fieldState, error) {
 	return out, nil
 }
 
+// userFonts switches to a temporary config dir and installs the user font pdfcpu falls back to for text its core fonts cannot
+// encode (Roboto-Regular), so that non-Latin and supplementary-plane values can be filled.
+func userFonts() func() {
+	d, err := os.MkdirTemp("", "bmformwm-conf-")
+	if err != nil {
+		h.Die("tmp: %v", err)
+	}
+	if err := api.EnsureDefaultConfigAt(d); err != nil {
+		h.Die("config dir: %v", err)
+	}
+	if err := api.InstallFonts([]string{repoPath("pkg/testdata/fonts/Roboto-Regular.ttf")}); err != nil {
+		h.Die("install font: %v", err)
+	}
+	return func() { os.RemoveAll(d) }
+}
+
 func formReplay(in, fieldsFile, out string, workers int, samples bool) {
+	defer userFonts()()
 	var defs []fieldDef
 	first := true
 	if err := h.EachLine(fieldsFile, func(line []byte) error {
